@@ -229,8 +229,10 @@ def _mirror(ctx, fa, fb, what, flip_rel):
         rel = c.rel
         if flip and rel in (">>", "<<"):
             rel = "<<" if rel == ">>" else ">>"
-        return (rel, repr(c.lhs), repr(c.rhs), tuple(unparse(t) + str(p) for t, p in c.cond))
+        return (rel, repr(c.lhs), repr(c.rhs), tuple(sorted(repr(sk_.N(t) if p else sk_.N._not(sk_.N(t))) for t, p in c.cond)))
+    sk_ = ska
     sa = sorted(sig(c, False) for c in ca)
+    sk_ = skb
     sb = sorted(sig(c, flip_rel) for c in cb)
     ctx.ob("R-SIB", fa, f"{key}: same constraints" + (" with the inequality reversed" if flip_rel else ""), sa == sb,
            f"{len(sa)} constraints mirror each other" if sa == sb else f"constraint sets differ: {[x[0] + ' ' + x[1][:40] for x in sa]} vs {[x[0] + ' ' + x[1][:40] for x in sb]}", pb.node)
